@@ -98,9 +98,10 @@ oer_open_type_get(const asn_codec_ctx_t *opt_codec_ctx,
 
     dr = td->op->oer_decoder(opt_codec_ctx, td, constraints, struct_ptr,
                          (const uint8_t *)bufptr + len_len, container_len);
-    if(dr.code == RC_OK) {
+    if(dr.code == RC_OK && dr.consumed == container_len) {
         return len_len + container_len;
     } else {
+        /* (also: RC_OK with octets of the container left over) */
         /* Even if RC_WMORE, we can't get more data into a closed container. */
         td->op->free_struct(td, *struct_ptr, dispose_method);
         *struct_ptr = NULL;
